@@ -92,7 +92,7 @@ def handler : Driver.Handler := fun c i => do
   let stream := (Driver.getStr c "stream").toOption.getD "?"
   let layout := (Driver.getStr c "layout").toOption.getD "?"
   let caseTags := match c.getObjValAs? (Array Json) "tags" with | .ok a => a.toList.filterMap (fun (j : Json) => j.getStr?.toOption) | .error _ => []
-  let baseTags := (["s:" ++ stream, "layout_" ++ layout] ++ caseTags.filter (fun t => t.startsWith "f:")).eraseDups
+  let baseTags := (["s:" ++ stream, "layout_" ++ layout] ++ caseTags.filter (fun t => t.startsWith "f:" || t.startsWith "shape:")).eraseDups
   if let .ok e := i.getObjValAs? String "harness_err" then throw s!"harness: {e}"
   if let .ok m := i.getObjValAs? String "panic" then throw s!"harness panic: {m}"
   if let .ok _ := i.getObjVal? "bind_err" then
@@ -100,8 +100,13 @@ def handler : Driver.Handler := fun c i => do
   let cfgs ← Driver.getObj i "cfgs"
   let names : List String := match cfgs with | .obj kvs => kvs.toList.map (fun (kv : String × Json) => kv.1) | _ => []
   let ans (n : String) : Json := (cfgs.getObjVal? n).toOption.getD Json.null
-  let ref := ans "noopt"
   let ran (a : Json) : Bool := (a.getObjVal? "rows").toOption.isSome || (a.getObjVal? "digest").toOption.isSome
+  -- the reference answer: the unoptimized plan; subquery predicates are not executable before decorrelation, the reference is then
+  -- the plan with ONLY SubqueryDecorrelation applied (config "decorr", tag `ref_decorr`)
+  let refDecorr := !ran (ans "noopt") && ran (ans "decorr")
+  let ref := if refDecorr then ans "decorr" else ans "noopt"
+  let baseTags := if refDecorr then baseTags ++ ["ref_decorr"] else baseTags
+  let names := if refDecorr then names.filter (· != "noopt") else names
   if !ran ref then
     -- the unoptimized plan does not run: nothing to compare against
     return { model := Json.mkObj [("noopt", ref)], k := true, nt := false, tags := baseTags ++ ["noopt_not_run"] }
